@@ -23,7 +23,12 @@ Verdict rules (the property text decides):
   (the request was honoured after all); it fails only if it answers with different numbers.
 The model's normalisation shortcut norm_cont_diag is compared with Overlap.norm_cont (command 106) on every run.
 A sample of one-axis cases (command 105) is re-evaluated inside Coq with vm_compute and must agree with the
-extracted code exactly."""
+extracted code exactly.
+Stream "hp": EvalDeriv.construct_array_contraction with both back-ends, i.e. _eval_deriv_contractions and
+_eval_first_second_order_deriv_contractions (+ _first_derivative / _second_derivative) of gbasis/evals/_deriv.py and
+norm_prim_cart, replayed in 260-bit arithmetic on object arrays (harness/hpnum.py; scipy's eval_hermite, a float-only
+ufunc, is replaced by the three-term recurrence in the same arithmetic) and compared with command 100 at
+1e-18 x sum|terms| (command 104, the model's own exact scale): a difference there is a difference of FORMULA."""
 import itertools
 import os
 import random
@@ -46,7 +51,9 @@ RULE = ("all 125 order triples (each order 0..4) x both back-ends enumerated on 
         "centre, always including a point exactly on a centre, one on an axis through it and one on a coordinate "
         "plane through it; evaluate_basis cases for every l 0..6 in both coordinate types; unknown back-end names. "
         "A case is non-trivial when the exact result is not identically zero and (l>0 or K>1 or M>1 or total order>0 "
-        "or more than one shell); distinct by the hash of the exact input")
+        "or more than one shell); distinct by the hash of the exact input; hp stream: 16 (quick) / 250 (thorough) "
+        "single Cartesian shells l<=3 / l<=5, K<=3, M<=2, 3-4 points, order triples up to 4 (general) / 2 (direct), "
+        "replayed at 260 bits against command 100, tolerance 1e-18 x sum|terms| (command 104)")
 ASSUMPTIONS = [
     "floating-point rounding of the NumPy pipeline is not modelled: the accuracy clause is decided on the generated "
     "inputs against the exact value, tolerance 1e-9 x sum|terms| + 2^-1060 x sum|terms without Gaussian| (model-computed)",
@@ -75,7 +82,55 @@ def _tnp(t):
     return None if t is None else np.array([[float(Fraction(c)) for c in row] for row in t])
 
 
+def eval_hp(model, case):
+    """high-precision replay of EvalDeriv.construct_array_contraction (one Cartesian shell) vs command 100"""
+    import hpnum
+    s = _basis(case)[0]
+    pts = _points(case)
+    orders = [int(o) for o in case["orders"]]
+    bname = case["backend"]
+    tag = "hp %s l=%d total order %d" % (bname, s.l, sum(orders))
+    res = model.call("(100 %s %s %s %d)" % (s.sx(), sx(pts), sx(orders), BACKENDS[bname]))
+    scale = np.array(model.call("(104 %s %s %s 0)" % (s.sx(), sx(pts), sx(orders))), dtype=object).astype(float)
+
+    def replay():
+        from gbasis.evals.eval_deriv import EvalDeriv
+        return EvalDeriv.construct_array_contraction(hpnum.hp_shell(s), hpnum.hp_array(pts), np.array(orders),
+                                                     deriv_type=bname)
+    ok, blk = hpnum.try_replay(replay)
+    if not ok:
+        return {"detail": blk, "nontrivial": True, "tag": tag}
+    d = hpnum.compare_hp(blk, res, scale, floor_rel=0.0)
+    if d is not None:
+        d["tolerance_rule"] = "1e-18 x sum|terms| (model command 104)"
+    return {"detail": d, "tag": tag, "nontrivial": bool(scale.size and scale.max() > hpnum.NONTRIVIAL_SCALE),
+            "stats": {"hp_elements": int(np.asarray(blk).size)}}
+
+
+def gen_hp_cases(tier, seed):
+    rng = random.Random(7000003 * seed + 55)
+    quick = tier == "quick"
+    out = []
+    n = 16 if quick else 250
+    lmax = 3 if quick else 5
+    for i in range(n):
+        bname = ("general", "direct")[i % 2]
+        omax = 4 if bname == "general" else 2
+        o = [rng.randint(0, omax) for _ in range(3)]
+        if i % 5 == 0:
+            o[rng.randrange(3)] = 0
+        s = gen_shell(rng, l=(i // 2) % (lmax + 1), kmax=2 if quick else 3, mmax=2, sph=False)
+        pts = gen_points(rng, [s], rng.randint(3, 4))
+        if i % 4 == 3:
+            pts = full_mantissa(rng, [s], pts)
+        out.append({"kind": "deriv", "hp": 1, "basis": [s.to_json()], "points": pts, "orders": o, "backend": bname,
+                    "transform": None})
+    return out
+
+
 def eval_case(model, case):
+    if case.get("hp"):
+        return eval_hp(model, case)
     from gbasis.evals.eval import evaluate_basis
     from gbasis.evals.eval_deriv import evaluate_deriv_basis
 
@@ -371,7 +426,7 @@ def run(rep, tier, seed, model, replay):
     if replay is not None:
         cases = [replay["case"]]
     else:
-        cases = gen_cases(tier, seed)
+        cases = gen_hp_cases(tier, seed) + gen_cases(tier, seed)
         if model is not None:
             check_norm_shortcut(model, seed)
             EXTRA["in_coq_crosscheck_cases"] = coq_crosscheck(model, seed)
